@@ -54,7 +54,7 @@ __CPROVER_requires(ssl == &g_ssl)
 __CPROVER_requires(OURS == 0 && LEN == 0)
 POSTS(ENSURES_CLAUSE)
 CANARY_CLAUSE(g_ssl.supportedVersions == 0)
-__CPROVER_assigns(g_ssl.supportedVersions, __CPROVER_object_whole(g_ssl.supportedVersionsPriority), g_ssl.supportedVersionsPriorityLen)
+__CPROVER_assigns(g_ssl.supportedVersions, g_ssl.supportedVersionsPriority, g_ssl.supportedVersionsPriorityLen)
 ;
 
 #include "matrixssl/matrixsslInitVer.c"
@@ -71,7 +71,7 @@ struct inputs nondet_in(void);
 #endif
 DECL_SNAPSHOT(ssl_t, g_ssl);
 
-/* all other fields of g_ssl stay zero: not read */
+/* all other fields of g_ssl: havocked by DFCC in the cbmc run, zero in the native replay; not read */
 HARNESS_BEGIN
     HARNESS_INPUTS(struct inputs, in);
     int32 vr_ret;
